@@ -2371,13 +2371,17 @@ func (r *RIBHolder) GetRIB(filter map[spb.AFTType]bool, msgCh chan *spb.GetRespo
 				if err != nil {
 					return status.Errorf(codes.Internal, "cannot marshal IPv4Entry for %s into GetResponse, %v", pfx, err)
 				}
-				msgCh <- &spb.GetResponse{
+				select {
+				case msgCh <- &spb.GetResponse{
 					Entry: []*spb.AFTEntry{{
 						NetworkInstance: r.name,
 						Entry: &spb.AFTEntry_Ipv4{
 							Ipv4: p,
 						},
 					}},
+				}:
+				case <-stopCh:
+					return nil
 				}
 			}
 		}
@@ -2393,13 +2397,17 @@ func (r *RIBHolder) GetRIB(filter map[spb.AFTType]bool, msgCh chan *spb.GetRespo
 				if err != nil {
 					return status.Errorf(codes.Internal, "cannot marshal IPv6Entry for %s into GetResponse, %v", pfx, err)
 				}
-				msgCh <- &spb.GetResponse{
+				select {
+				case msgCh <- &spb.GetResponse{
 					Entry: []*spb.AFTEntry{{
 						NetworkInstance: r.name,
 						Entry: &spb.AFTEntry_Ipv6{
 							Ipv6: p,
 						},
 					}},
+				}:
+				case <-stopCh:
+					return nil
 				}
 			}
 		}
@@ -2415,13 +2423,17 @@ func (r *RIBHolder) GetRIB(filter map[spb.AFTType]bool, msgCh chan *spb.GetRespo
 				if err != nil {
 					return status.Errorf(codes.Internal, "cannot marshal MPLS entry for label %d into GetResponse, %v", lbl, err)
 				}
-				msgCh <- &spb.GetResponse{
+				select {
+				case msgCh <- &spb.GetResponse{
 					Entry: []*spb.AFTEntry{{
 						NetworkInstance: r.name,
 						Entry: &spb.AFTEntry_Mpls{
 							Mpls: p,
 						},
 					}},
+				}:
+				case <-stopCh:
+					return nil
 				}
 			}
 		}
@@ -2437,13 +2449,17 @@ func (r *RIBHolder) GetRIB(filter map[spb.AFTType]bool, msgCh chan *spb.GetRespo
 				if err != nil {
 					return status.Errorf(codes.Internal, "cannot marshal NextHopGroupEntry for index %d into GetResponse, %v", index, err)
 				}
-				msgCh <- &spb.GetResponse{
+				select {
+				case msgCh <- &spb.GetResponse{
 					Entry: []*spb.AFTEntry{{
 						NetworkInstance: r.name,
 						Entry: &spb.AFTEntry_NextHopGroup{
 							NextHopGroup: p,
 						},
 					}},
+				}:
+				case <-stopCh:
+					return nil
 				}
 			}
 		}
@@ -2460,13 +2476,17 @@ func (r *RIBHolder) GetRIB(filter map[spb.AFTType]bool, msgCh chan *spb.GetRespo
 				if err != nil {
 					return status.Errorf(codes.Internal, "cannot marshal NextHopEntry for ID %d into GetResponse, %v", id, err)
 				}
-				msgCh <- &spb.GetResponse{
+				select {
+				case msgCh <- &spb.GetResponse{
 					Entry: []*spb.AFTEntry{{
 						NetworkInstance: r.name,
 						Entry: &spb.AFTEntry_NextHop{
 							NextHop: p,
 						},
 					}},
+				}:
+				case <-stopCh:
+					return nil
 				}
 			}
 		}
